@@ -96,6 +96,20 @@ def build(variant):
         with contextlib.redirect_stdout(io.StringIO()):
             pyrtl.input_from_blif(blif)
         return pyrtl.working_block()
+    elif variant == 'memen_joined':
+        # pairs of write ports whose (enable, address, data) descriptions coincide once joined with blanks:
+        # 'p/1I' + 'q/1I r/3I'  vs  'p/1I q/1I' + 'r/3I'  (names may hold any character); same data everywhere
+        ra = pyrtl.Input(3, 'ra')
+        d = pyrtl.Input(3, 'D')
+        o = pyrtl.Output(3, 'o')
+        m = pyrtl.MemBlock(3, 3, 'm', max_write_ports=8, asynchronous=True)
+        for i in range(3):
+            e1, a1 = pyrtl.Input(1, 'p%d' % i), pyrtl.Input(3, 'q%d/1I r%d' % (i, i))
+            e2, a2 = pyrtl.Input(1, 'p%d/1I q%d' % (i, i)), pyrtl.Input(3, 'r%d' % i)
+            m[a1] <<= pyrtl.MemBlock.EnabledWrite(d, e1)
+            m[a2] <<= pyrtl.MemBlock.EnabledWrite(d, e2)
+        o <<= m[ra]
+        return pyrtl.working_block()
     elif variant == 'memen_samedata':
         # write ports that share BOTH the enable wire and the data wire (a broadcast write)
         ra = pyrtl.Input(3, 'ra')
